@@ -994,6 +994,9 @@ class MethodAnalysis:
             return Opaque(name)
         if isinstance(f, ast.Attribute):
             m = f.attr
+            if m == "fromkeys" and isinstance(f.value, ast.Name) and f.value.id in ("dict", "OrderedDict") and f.value.id not in env and len(node.args) == 1:
+                # dict.fromkeys(x): the elements of x, once each, in order - iterating it is iterating a materialised x
+                return self.materialize(self.ev(node.args[0], env, conds, loops, st, quiet), "list", st, conds, loops, quiet)
             base = self.ev(f.value, env, conds, loops, st, quiet)
             args = [self.ev(a, env, conds, loops, st, quiet) for a in node.args]
             if base == "SELF":
